@@ -192,6 +192,13 @@ example : let h0 := (Heap.empty (fun _ _ => 0)).callerAlloc [1, 2, 3] 3 3
   refine ⟨RInv.newBytes _ _ rfl (by decide) ⟨⟨[1, 2, 3], .caller, 3⟩, rfl, by decide, rfl⟩, ?_⟩
   exact ⟨_, _, _, rfl, by decide⟩
 
+/-- the environment really is adversarial: once a pool buffer has been freed, the co-tenant overwriting
+    it is an `Env` step -/
+example : let h0 := (Heap.empty (fun _ _ => 0)).malloc 2 0
+    let h1 := h0.2.free h0.1
+    Env h1 (h1.setData 0 0 [0xDE, 0xDE]) :=
+  Heap.Env.overwrite _ 0 ⟨[0, 0], .freed, 0⟩ [0xDE, 0xDE] rfl rfl rfl
+
 /-- a bytes writer over a caller target `[9, 9 | _, _, _]` (len 2, cap 5): Malloc(2) hands out the spare
     bytes 2..3 -/
 example : let h0 := (Heap.empty (fun _ _ => 0)).callerAlloc [9, 9, 0, 0, 0] 2 2
